@@ -8,6 +8,7 @@ import (
 	"encoding/binary"
 	"fmt"
 	"os"
+	"runtime"
 	"strings"
 	"sync/atomic"
 	"testing"
@@ -433,6 +434,15 @@ func safe(f func() string) (out string) {
 	return f()
 }
 
+// done gives a pooled packet back (decodes with the Pool option are disposed
+// as soon as their signature has been taken, so blocks and whatever else is
+// recycled with them circulate between workers).
+func done(p gopacket.Packet) {
+	if pp, ok := p.(gopacket.PooledPacket); ok {
+		pp.Dispose()
+	}
+}
+
 // readAll exercises the read-only accessors of a shared eager packet.
 func readAll(p gopacket.Packet, which int) string {
 	var sb strings.Builder
@@ -487,6 +497,8 @@ func opts(k int) gopacket.DecodeOptions {
 		return gopacket.DecodeOptions{DecodeStreamsAsDatagrams: true}
 	case 3:
 		return gopacket.DecodeOptions{NoCopy: true, DecodeStreamsAsDatagrams: true}
+	case 4:
+		return gopacket.DecodeOptions{Pool: true}
 	}
 	return gopacket.Default
 }
@@ -516,15 +528,16 @@ func runC02(c *sim.Ctx, cold bool) {
 		pristine[i] = append([]byte(nil), b...)
 	}
 	// reference signatures, taken in a quiet state
-	ref := make([][8]string, len(inputs))
+	ref := make([][10]string, len(inputs))
 	mkRef := func() {
 		for i := range inputs {
-			for k := 0; k < 8; k++ {
-				p := gopacket.NewPacket(pristine[i], firsts[i], opts(k%4))
-				if k >= 4 {
+			for k := 0; k < 10; k++ {
+				p := gopacket.NewPacket(pristine[i], firsts[i], opts(k%5))
+				if k >= 5 {
 					prepare(p)
 				}
 				ref[i][k] = signature(p)
+				done(p)
 			}
 		}
 	}
@@ -536,14 +549,15 @@ func runC02(c *sim.Ctx, cold bool) {
 		if cold {
 			break
 		}
-		for k := 0; k < 8; k++ {
+		for k := 0; k < 10; k++ {
 			// from a separate copy of the same bytes: what lies behind len() of
 			// the caller's slice must not matter
-			p := gopacket.NewPacket(pristine[i], firsts[i], opts(k%4))
-			if k >= 4 {
+			p := gopacket.NewPacket(pristine[i], firsts[i], opts(k%5))
+			if k >= 5 {
 				prepare(p) // checksums of TCP/UDP/ICMPv6 are then really verified
 			}
 			ref[i][k] = signature(p)
+			done(p)
 		}
 	}
 	s := coop.New(c)
@@ -562,7 +576,7 @@ func runC02(c *sim.Ctx, cold bool) {
 		for k := 3 + c.Draw(8); k > 0; k-- {
 			switch c.Weighted(4, 2, 5) {
 			case 0:
-				plans[w] = append(plans[w], op{0, c.Draw(len(inputs)), c.Draw(8)})
+				plans[w] = append(plans[w], op{0, c.Draw(len(inputs)), c.Draw(10)})
 			case 1:
 				plans[w] = append(plans[w], op{1, c.Draw(len(inputs)), c.Draw(len(slots)) + 100*c.Draw(2)})
 			case 2:
@@ -587,16 +601,18 @@ func runC02(c *sim.Ctx, cold bool) {
 				w.Yield(100)
 				switch o.kind {
 				case 0: // decode and compare with the quiet-state reference
-					p := gopacket.NewPacket(inputs[o.a], firsts[o.a], opts(o.b%4))
-					if o.b >= 4 {
+					p := gopacket.NewPacket(inputs[o.a], firsts[o.a], opts(o.b%5))
+					if o.b >= 5 {
 						prepare(p)
 					}
 					w.Rec("decode", int64(o.a), int64(o.b), 0, "", nil)
+					got := signature(p)
+					done(p)
 					if cold {
-						seen[wi] = append(seen[wi], obs{0, o.a, o.b, signature(p)})
+						seen[wi] = append(seen[wi], obs{0, o.a, o.b, got})
 						continue
 					}
-					if got := signature(p); got != ref[o.a][o.b] {
+					if got != ref[o.a][o.b] {
 						fail("deterministic", "decode-differs", "NewPacket", "input %d options %d decoded differently after other packets had been decoded / while other goroutines decode:\n got %q\nwant %q", o.a, o.b, got, ref[o.a][o.b])
 					}
 				case 1: // decode eagerly and publish for concurrent readers
@@ -737,7 +753,7 @@ func simC04(c *sim.Ctx) {
 	plans := make([][]op, nw)
 	for w := range plans {
 		for k := 4 + c.Draw(10); k > 0; k-- {
-			plans[w] = append(plans[w], op{c.Weighted(5, 3, 2, 2), c.Draw(len(inputs)), c.Draw(5)})
+			plans[w] = append(plans[w], op{c.Weighted(10, 6, 4, 4, 1), c.Draw(len(inputs)), c.Draw(5)})
 		}
 	}
 	// mailboxes for handing packets to another worker (one real atomic each)
@@ -836,6 +852,12 @@ func simC04(c *sim.Ctx) {
 							check(q, "after the producer overwrote input "+fmt.Sprint(o.a))
 						}
 					}
+				case 4: // a garbage collection, and time for finalizers to run
+					runtime.GC()
+					for k := 0; k < 4; k++ {
+						runtime.Gosched()
+					}
+					w.Rec("collect", 0, 0, 0, "", nil)
 				case 3: // hand a packet over / take one
 					if got := mail[wi].Swap(nil); got != nil {
 						own[wi] = append(own[wi], got)
